@@ -419,3 +419,15 @@ Fixpoint rq_depth (q : rq) : nat :=
   | RNot q' => S (rq_depth q')
   | _ => 1
   end.
+
+(* the range queries occurring in a filter tree *)
+Fixpoint flt_ranges (f : flt) : list rq :=
+  match f with
+  | FField _ q => [q]
+  | FOr fs | FAnd fs => flat_map flt_ranges fs
+  | FNot g => flt_ranges g
+  end.
+
+(* a top-level Filter::Field on a B-tree index (not the primary key) *)
+Definition is_btree_leaf (f : flt) : bool :=
+  match f with FField n _ => negb (String.eqb n ID_KEY) | _ => false end.
